@@ -1105,3 +1105,85 @@ def rt_c05(tier="quick", first_only=False, count=None):
     if count is not None:
         count.append(n)
     return fails
+
+
+# --------------------------------------------------------------------------------------
+# C06: batched calls equal elementwise unbatched calls; independent randomness; determinism; ufunc signature
+def rt_c06(tier="quick", first_only=False, count=None):
+    import itertools as _it
+    import flowjax.bijections as B
+    import flowjax.distributions as Dm
+    import jax.random as jr
+    from flowjax.utils import _get_ufunc_signature
+
+    fails, n = [], 0
+    # signature builder: exhaustive over shape tuples of rank <= 3 with one- and two-digit dims, vs an independent formatter
+    dims = [1, 2, 3, 10, 11]
+    shapes = [()] + [(a,) for a in dims] + [(a, b) for a in dims for b in dims] + ([(a, b, c) for a in dims for b in dims for c in dims] if tier == "thorough" else [(2, 10, 3), (11, 1, 10)])
+    fmt = lambda s: "(" + ",".join(str(d) for d in s) + ")"  # noqa: E731
+    for ins in _it.chain([[s] for s in shapes], [[s, t] for s in shapes[:12] for t in shapes[:12]]):
+        for outs in ([()], [ins[0]], [ins[0], ()]):
+            n += 1
+            got = _get_ufunc_signature(ins, outs)
+            want = ",".join(fmt(s) for s in ins) + "->" + ",".join(fmt(s) for s in outs)
+            if got != want:
+                fails.append(dict(what=f"_get_ufunc_signature({ins}, {outs}) = {got!r}, expected {want!r}", case=dict(ins=[list(s) for s in ins])))
+                if first_only:
+                    return fails
+    # real distributions whose value depends on x and on the condition
+    def cond_dist(event, cshape):
+        return Dm.Transformed(Dm.Normal(jnp.zeros(event), jnp.ones(event)), B.AdditiveCondition(lambda c: 0.7 * jnp.sum(c) + jnp.zeros(event), event, cshape))
+
+    cfgs = [("uncond scalar", Dm.Normal(0.3, 1.7), None), ("uncond (3,)", Dm.Normal(jnp.arange(3.0), 1.5), None), ("cond event (2,), cond (3,)", cond_dist((2,), (3,)), (3,)),
+            ("cond event (), cond ()", cond_dist((), ()), ()), ("cond event (2,2), cond (2,1)", cond_dist((2, 2), (2, 1)), (2, 1))]
+    rng = np.random.default_rng(0)
+    for name, d, cs in cfgs:
+        ev = tuple(d.shape)
+        for xb, cb in (((), ()), ((4,), ()), ((1,), (3,)), ((2, 3), (3,)), ((3,), (3,)), ((2, 1), (1, 3))):
+            if cs is None and cb != ():
+                continue
+            n += 1
+            x = rng.normal(size=xb + ev)
+            c = None if cs is None else rng.normal(size=cb + cs)
+            lp = np.asarray(d.log_prob(x, c))
+            bshape = np.broadcast_shapes(xb, cb)
+            if lp.shape != bshape:
+                fails.append(dict(what=f"{name}: log_prob batch shape {lp.shape}, expected {bshape}", case=dict(dist=name)))
+                continue
+            xb_ = np.broadcast_to(x, bshape + ev)
+            cb_ = None if c is None else np.broadcast_to(c, bshape + cs)
+            for idx in np.ndindex(*bshape):
+                one = float(d.log_prob(xb_[idx], None if c is None else cb_[idx]))
+                if not _close(lp[idx], one, tol=1e-9):
+                    fails.append(dict(what=f"{name}: log_prob element {idx} of a batched call = {float(lp[idx])!r} but the unbatched call on that slice gives {one!r}", case=dict(dist=name, x_batch=xb, cond_batch=cb)))
+                    break
+        for ss, cb in (((), ()), ((5,), ()), ((2, 3), ()), ((), (4,)), ((5,), (4,)), ((2, 3), (1,)), ((5,), (3, 4))):
+            if cs is None and cb != ():
+                continue
+            n += 1
+            key = jr.PRNGKey(7)
+            c = None if cs is None else rng.normal(size=cb + cs)
+            s1 = np.asarray(d.sample(key, ss, c))
+            s2 = np.asarray(d.sample(key, ss, c))
+            want_shape = ss + cb + ev
+            case = dict(dist=name, sample_shape=ss, cond_batch=cb)
+            if s1.shape != want_shape:
+                fails.append(dict(what=f"{name}: sample shape {s1.shape}, expected sample_shape + condition batch + event = {want_shape}", case=case))
+                continue
+            if not np.array_equal(s1, s2):
+                fails.append(dict(what=f"{name}: the same key gave different samples", case=case))
+            flat = s1.reshape((-1,) + ev).reshape(int(np.prod(ss + cb, dtype=int)), -1)
+            # remove the deterministic condition shift before comparing draws
+            if c is not None:
+                shift = 0.7 * np.sum(np.broadcast_to(c, ss + cb + cs).reshape(flat.shape[0], -1), axis=1, keepdims=True)
+                flat = flat - shift
+            if len({tuple(np.round(r, 12)) for r in flat}) != flat.shape[0]:
+                fails.append(dict(what=f"{name}: repeated draws inside one batched sample (sample_shape={ss}, condition batch={cb}): elements share randomness", case=case))
+            s3, lp3 = d.sample_and_log_prob(key, ss, c)
+            if not np.allclose(np.asarray(s3), s1, atol=1e-12) or not np.allclose(np.asarray(lp3), np.asarray(d.log_prob(s1, c)), atol=1e-8):
+                fails.append(dict(what=f"{name}: sample_and_log_prob disagrees with sample / log_prob for the same key", case=case))
+        if first_only and fails:
+            return fails
+    if count is not None:
+        count.append(n)
+    return fails
